@@ -272,6 +272,28 @@ Section Main.
     apply add_transaction_orphans_sub in He. exact He.
   Qed.
 
+  (* processOrphans only adds to the pool *)
+  Lemma add_transaction_pool_mono st t h :
+    has (pool st) h = true -> has (pool (add_transaction st t)) h = true.
+  Proof.
+    rewrite add_transaction_eq. unfold plain_add; cbn [pool]. rewrite has_insert, remove_orphan_pool.
+    intros ->. apply orb_true_r.
+  Qed.
+
+  Lemma po_loop_pool_mono c : forall fuel st wl st',
+    po_loop ordP true c fuel st wl = Some st' ->
+    forall h, has (pool st) h = true -> has (pool st') h = true.
+  Proof.
+    induction fuel as [|f IH]; intros st wl st' E h Hh; destruct wl as [|x wl']; cbn in E.
+    - inversion E; subst; exact Hh.
+    - discriminate.
+    - inversion E; subst; exact Hh.
+    - match type of E with context [if ?b then _ else _] => destruct b end.
+      + apply (IH _ _ _ E). change (add_transaction_gen true) with add_transaction.
+        apply add_transaction_pool_mono. rewrite remove_orphan_pool. exact Hh.
+      + exact (IH _ _ _ E h Hh).
+  Qed.
+
   (* ---- ValidateTx / processTransaction -------------------------------------- *)
   Lemma add_orphan_avail c st now t req o : avail c (add_orphan st now t req) o = avail c st o.
   Proof. reflexivity. Qed.
@@ -431,5 +453,31 @@ Section Main.
     intros [B W] HU E. cbn in E.
     destruct (validate_tx_gen ordP true (wchain w) (wst w) now t) as [[st' r']|] eqn:Ev; [|discriminate].
     inversion E; subst. cbn [wst wchain]. apply validate_tx_inv in Ev; auto. tauto.
+  Qed.
+  (* the submitted transaction itself never ends up as an orphan with all its parents available *)
+  Lemma submit_self_not_complete_orphan w now t w' r :
+    pool_inv w -> In t U -> step ordP ordE w (OSubmit now t) = Some (w', r) ->
+    forall e, lookup (orphans (wst w')) (tid t) = Some e ->
+      ~ complete (wchain w') (wst w') (otx e).
+  Proof.
+    intros [B W] HU E e He Hc. cbn in E.
+    destruct (validate_tx_gen ordP true (wchain w) (wst w) now t) as [[st' r']|] eqn:Ev; [|discriminate].
+    inversion E; subst. cbn [wst wchain] in *.
+    pose proof (validate_tx_inv _ _ _ _ _ _ HU B W Ev) as [B' _].
+    unfold validate_tx_gen in Ev. destruct (has (pool (wst w)) (tid t)) eqn:Hp.
+    { inversion Ev; subst. apply (b_disj _ _ B (tid t) Hp). apply has_true; eauto. }
+    unfold process_transaction_gen in Ev.
+    change (check_orphan_utxos_gen true (wchain w) (wst w) t) with (missing (wchain w) (wst w) t) in Ev.
+    destruct (missing (wchain w) (wst w) t) as [|o req] eqn:Em.
+    - unfold process_orphans_gen in Ev.
+      destruct (po_loop ordP true (wchain w) _ _ _) as [st2|] eqn:El; [|discriminate].
+      inversion Ev; subst st2 r. apply (b_disj _ _ B' (tid t)); [|apply has_true; eauto].
+      apply (po_loop_pool_mono _ _ _ _ _ El). unfold with_obp; cbn [pool].
+      change (add_transaction_gen true) with add_transaction. rewrite add_transaction_eq.
+      unfold plain_add; cbn [pool]. rewrite has_insert, N.eqb_refl. reflexivity.
+    - inversion Ev; subst st' r. unfold add_orphan in He; cbn [orphans] in He.
+      rewrite lookup_insert_eq in He. inversion He; subst e. cbn [otx] in Hc.
+      assert (Hc0 : complete (wchain w) (wst w) t) by (intros o' Ho'; exact (Hc o' Ho')).
+      apply missing_nil in Hc0. congruence.
   Qed.
 End Main.
